@@ -174,6 +174,28 @@ func pFindOneAndUpdate(db, coll string, filter, update, sortSpec bson.D, after, 
 	}}
 }
 
+// pFindOneAndPushRejected is a find-one-and-update whose projection is only rejected on a document that has the array
+// the update creates ($elemMatch conditions are evaluated against elements): the call fails and writes nothing when
+// a document matches or is upserted, and returns nothing otherwise.
+func pFindOneAndPushRejected(db, coll string, filter bson.D, upsert bool) c01Pair {
+	name := fmt.Sprintf("%s.%s.FindOneAndUpdate(%s,$push fresh,after,upsert=%v,projection rejected on the new version)", db, coll, J(filter), upsert)
+	return c01Pair{e1.Call{Name: name, Do: func(w *world.World) string {
+		opt := options.FindOneAndUpdate().SetUpsert(upsert).SetReturnDocument(options.After).SetProjection(bD("fresh", bD("$elemMatch", bD("x", bD("$in", int32(5))))))
+		return obsSingle(w.C(db, coll).FindOneAndUpdate(w.Ctx, filter, bD("$push", bD("fresh", bD("x", int32(1)))), opt))
+	}}, func(m *refmodel.DB) string {
+		// the update itself may be rejected (a uniqueness error of the upsert, $push onto a value that is no array): run
+		// it on a copy of the model, the model proper stays as it is in every case
+		res, err := m.Clone().Update(db, coll, filter, bD("$push", bD("fresh", bD("x", int32(1)))), nil, false, upsert, nil)
+		if err != nil {
+			return refmodel.ErrClass(err)
+		}
+		if res.After == nil {
+			return "ok none"
+		}
+		return "err"
+	}}
+}
+
 func pFindOneAndReplace(db, coll string, filter, repl, sortSpec bson.D, after, upsert bool) c01Pair {
 	return c01Pair{cFindOneAndReplace(db, coll, filter, repl, sortSpec, after, upsert), func(m *refmodel.DB) string {
 		res, err := m.Replace(db, coll, filter, repl, sortSpec, upsert)
@@ -652,6 +674,9 @@ func c01Alphabet(full bool) []c01Pair {
 		// find-one-and-modify calls that return the new version although nothing changes
 		pFindOneAndUpdate("d", "c", bD("_id", i(1)), bD("$set", bD("b", "x")), nil, true, false),
 		pFindOneAndReplace("d", "c", bD("_id", i(2)), bD("a", i(2), "b", "x"), nil, true, false),
+		// a projection that is only rejected on the new version of the document
+		pFindOneAndPushRejected("d", "c", bD("_id", i(1)), false),
+		pFindOneAndPushRejected("d", "c", bD("_id", i(14)), true),
 		// a sort equal to the key of the (partial) unique index
 		pFind("d", "c", bD(), bD("a", i(1)), nil, 0, 0),
 		pFindOneAndDelete("d", "c", bD(), bD("a", i(1), "_id", i(-1))),
